@@ -97,6 +97,11 @@ func (p Password) Match(pw string) (bool, error) {
 }
 
 func (p *Password) UnmarshalJSON(b []byte) error {
+	if string(bytes.TrimSpace(b)) == "null" {
+		// no password, never matches
+		*p = Password{}
+		return nil
+	}
 	var k string
 	err := json.Unmarshal(b, &k)
 	if err == nil {
